@@ -32,7 +32,7 @@ TITLE = 'Node and the engine agree on metadata schema and type defaults'
 PROPS = ['Props/C38']
 RULE = ('search: exhaustive over the current tree - every metadata table (both blocks of schema.ts) and every type name '
         'listed in usertypes._type_defaults or gristTypes._defaultValues plus an unlisted name and ":suffix" forms; '
-        'correspondence: the real schema plus randomly mutated schemas (subsets of real tables, extra tables/columns, '
+        'correspondence: randomly mutated schemas (plus the whole real schema in the thorough tier; subsets of real tables, extra tables/columns, '
         'every _ts_types key with and without suffix, unknown types, ids of length 0/19/20/21/40, quotes, colons, '
         'spaces, newlines, %, non-BMP characters, odd versions, mutated _ts_types) fed to the real gen_js_schema.main(), '
         'and mutated _type_defaults tables fed to the real get_type_default; a schema case is non-trivial when it has at '
@@ -333,19 +333,34 @@ def pure_type(t):
   return t.split(':', 1)[0]
 
 
-def ts_default_py(tsd, col_type):
-  """getDefaultForType as read from its text: (_defaultValues[type] || _defaultValues.Any)[0]."""
-  d = dict(tsd)
-  t = pure_type(col_type)
-  if t in d:
-    return d[t]
-  return d.get('Any', ('missing',))
-
-
 # ---------------------------------------------------------------------------------------------
 # Coq literals
 
-S = core.strlit
+def _plain(c):
+  return c == '\n' or (' ' <= c <= '~')
+
+
+def S(s):
+  """A Python str as a Coq term of type list Z (code points): runs of printable ASCII and newlines are written as
+  `str "..."` (Model.JsSchema.str: Coq string literal -> code points; a double quote is written twice), everything
+  else as numerals.  Much faster for coqc to read than one numeral per character."""
+  parts = []
+  i = 0
+  while i < len(s):
+    j = i
+    plain = _plain(s[i])
+    while j < len(s) and _plain(s[j]) == plain:
+      j += 1
+    run = s[i:j]
+    if plain:
+      # short literals: coqc's string notation is superlinear in the length of a literal
+      parts.extend('str "%s"%%string' % run[k:k + 100].replace('"', '""') for k in range(0, len(run), 100))
+    else:
+      parts.append(core.zlist([ord(c) for c in run]))
+    i = j
+  if not parts:
+    return '[]'
+  return '(' + ' ++ '.join(parts) + ')'
 
 
 def coq_schema(version, tables):
@@ -378,23 +393,35 @@ def coq_wire(w):
           'bad': lambda: 'WBad'}[w[0]]()
 
 
-def coq_text_chunks(name, text, chunk=400):
-  """A long text as `name : list Z` = concat of chunk definitions (keeps every list literal short)."""
-  cps = [ord(c) for c in text]
-  parts = [cps[i:i + chunk] for i in range(0, len(cps), chunk)]
-  lines = ['Definition %s_chunk_%d : list Z := %s.' % (name, i, core.zlist(p)) for i, p in enumerate(parts)]
+def coq_text_chunks(name, text, chunk=2000):
+  """A long text as `name : list Z` = concat of chunk definitions (keeps every literal short)."""
+  parts = [text[i:i + chunk] for i in range(0, len(text), chunk)]
+  lines = ['Definition %s_chunk_%d : list Z := %s.' % (name, i, S(p)) for i, p in enumerate(parts)]
   lines.append('Definition %s : list Z := concat %s.' %
                (name, core.coq_list(['%s_chunk_%d' % (name, i) for i in range(len(parts))])))
   return '\n'.join(lines)
 
 
 HEAD = ('(* GENERATED by harness/props/c38.py from %s on every run -- do not edit *)\n'
-        'From Coq Require Import ZArith List Bool.\nImport ListNotations.\n'
+        'From Coq Require Import String ZArith List Bool.\nImport ListNotations.\n'
         'Require Import Grist.Model.JsSchema.\nOpen Scope Z_scope.\n\n')
 
 
 def regenerate(ctx):
   os.makedirs(GEN, exist_ok=True)
+  try:
+    _regenerate(ctx)
+  except Exception as e:
+    # never leave data of an earlier run behind: the theorems must not be checked against stale files
+    for name in ('PySchema_gen.v', 'TsSchema_gen.v'):
+      if name not in ctx.extra.get('regenerated', []):
+        core.write_if_changed(os.path.join(GEN, name),
+                              '(* regeneration failed on this run: the data could not be extracted *)\n'
+                              'Definition regeneration_failed_%s := tt.\n' % name[:-2])
+    raise
+
+
+def _regenerate(ctx):
   version, tables = real_schema()
   tt = real_ts_types()
   pyd = real_type_defaults()
@@ -406,6 +433,7 @@ def regenerate(ctx):
              '(* usertypes._type_defaults (floats as binary64 bit patterns) *)\n'
              'Definition py_type_defaults : list (list Z * py_val) :=\n  %s.\n' % coq_pairs(pyd, coq_py_val))
   core.write_if_changed(os.path.join(GEN, 'PySchema_gen.v'), py_text)
+  ctx.extra.setdefault('regenerated', []).append('PySchema_gen.v')
 
   tsd = parse_default_values(gristtypes_text())
   ts_text = (HEAD % 'app/common/schema.ts, app/common/gristTypes.ts (_defaultValues)' +
@@ -414,6 +442,7 @@ def regenerate(ctx):
              '(* first components of gristTypes.ts _defaultValues *)\n'
              'Definition ts_default_values : list (list Z * ts_lit) :=\n  %s.\n' % coq_pairs(tsd, coq_ts_lit))
   core.write_if_changed(os.path.join(GEN, 'TsSchema_gen.v'), ts_text)
+  ctx.extra['regenerated'].append('TsSchema_gen.v')
   ctx.extra['data'] = {'schema_version': version, 'tables': len(tables),
                        'columns': sum(len(c) for _, c in tables), 'schema_ts_chars': len(schema_ts_text()),
                        'py_default_types': len(pyd), 'ts_default_types': len(tsd), 'ts_types': len(tt)}
@@ -572,34 +601,59 @@ def node_eval_defaults(text):
   return out
 
 
+def check_not_stale(ctx):
+  """The compiled theorems must have been checked against the data written by THIS run (guards against a make
+  that wrongly found everything up to date, e.g. when its dependency file was being rewritten concurrently)."""
+  def mt(p):
+    try:
+      return os.path.getmtime(p)
+    except OSError:
+      return None
+  prop_vo = mt(os.path.join(core.COQ, 'theories', 'Props', 'C38.vo'))
+  for name in ('PySchema_gen', 'TsSchema_gen'):
+    v, vo = mt(os.path.join(GEN, name + '.v')), mt(os.path.join(GEN, name + '.vo'))
+    if v is None or vo is None or vo < v or prop_vo is None or prop_vo < vo:
+      ctx.broken('proof:Props/C38 is not built from the data of this run',
+                 '%s.v %r, %s.vo %r, Props/C38.vo %r (modification times)' % (name, v, name, vo, prop_vo))
+      return
+
+
 def correspond(ctx):
+  check_not_stale(ctx)
   real = real_schema()
   tt = real_ts_types()
 
   # (1) render vs the real generator: real schema, then mutated ones
-  cases = [('real', tt, real[0], real[1])]
-  for _ in range(ctx.n(60, 1500)):
+  # The whole real schema goes through Coq in the thorough tier only (in every tier, C38_schema_text_equal together
+  # with the search's "generator output = schema.ts" already pins render on the real schema).
+  cases = [('real', tt, real[0], real[1])] if ctx.tier == 'thorough' else []
+  if run_generator(real[0], real[1], tt) != run_generator_real_inprocess():
+    ctx.broken('correspondence:harness wrapper', 'main() on the swapped-in copy of the real schema differs from main() itself')
+  for _ in range(ctx.n(50, 1500)):
     cases.append(gen_schema_case(ctx.rng, real, tt))
   coq = []
   kept = []
+  nchars = 0
   for kind, ts_types, v, tables in cases:
     try:
       out = run_generator(v, tables, ts_types)
     except Exception as e:
       ctx.broken('correspondence:gen_js_schema.main() raised on a generated schema', '%r on %r' % (e, (v, tables)))
       continue
-    if kind == 'real' and out != run_generator_real_inprocess():
-      ctx.broken('correspondence:harness wrapper', 'main() on the swapped-in copy of the real schema differs from main() itself')
     ncols = sum(len(c) for _, c in tables)
+    nchars += len(out)
     ctx.count(('schema', ts_types, v, tables), nontrivial=ncols > 0, kind='schema:' + kind,
               sample=None if kind == 'real' or len(out) > 900 else
               {'ts_types_mutated': ts_types != tt, 'version': v, 'tables': tables, 'generator_output': out})
     coq.append('(%s, %s, %s)' % (coq_pairs(ts_types), coq_schema(v, tables), S(out)))
     kept.append((kind, ts_types, v, tables))
+  ctx.log('render cases: %d (%d characters of generator output)' % (len(coq), nchars))
   bad = ctx.run_cases('render', ['Grist.Model.JsSchema'],
                       'fun c => zs_eqb (render (fst (fst c)) (snd (fst c))) (snd c)', coq, shard=40, timeout=600)
   for i in bad[:5]:
     ctx.broken('correspondence:Model.JsSchema.render differs from gen_js_schema.main()', 'case %r' % (kept[i],))
+
+  ctx.log('render cases evaluated: %d disagree' % len(bad))
 
   # (2) py_col_default vs the real usertypes.get_type_default on mutated _type_defaults tables
   dcases = []
@@ -620,6 +674,8 @@ def correspond(ctx):
                       'Definition wire_same (a b : wire) : bool := match a, b with WBad, WBad => true | _, _ => wire_eqb a b end.')
   for i in bad[:5]:
     ctx.broken('correspondence:Model.JsSchema.py_col_default differs from usertypes.get_type_default', 'case %r' % (dkept[i],))
+
+  ctx.log('default cases evaluated: %d of %d disagree' % (len(bad), len(dcases)))
 
   # (3) monitors on the Node side: parser vs node, and the text of the two functions the model follows
   gt = gristtypes_text()
@@ -721,43 +777,57 @@ def schema_diff(ctx=None):
           (first + 1, '; '.join(msgs[:12]) or 'no structural difference: layout/whitespace only', '\n'.join(d[:40])))
 
 
-def default_diff(t):
+def ts_wire_table():
+  """[(type name, value Node sees)] for _defaultValues: by the strict parser; if the literal is outside the parsed
+  forms, by node evaluating it (the search must still be able to find a failing type then)."""
+  text = gristtypes_text()
+  try:
+    return [(k, ts_wire(v)) for k, v in parse_default_values(text)], 'parser'
+  except core.TieBroken:
+    ev = node_eval_defaults(text)
+    if ev is None:
+      raise
+    return [(k, w if w[0] in ('null', 'bool', 'num', 'str') else ('bad',)) for k, w in ev], 'node'
+
+
+def ts_default_wire(table, col_type):
+  """getDefaultForType as read from its text: (_defaultValues[type] || _defaultValues.Any)[0]."""
+  d = dict(table)
+  t = pure_type(col_type)
+  return d[t] if t in d else d.get('Any', ('bad',))
+
+
+def default_diff(t, table=None):
   """None if Node's and Python's default for column type t agree; else a description."""
   import usertypes
-  tsd = parse_default_values(gristtypes_text())
+  if table is None:
+    table = ts_wire_table()[0]
   p = py_wire(py_val(usertypes.get_type_default(t)))
-  n = ts_wire(ts_default_py(tsd, t))
+  n = ts_default_wire(table, t)
   if p == n and p[0] != 'bad':
     return None
   return 'default of type %r: usertypes.get_type_default gives %s, gristTypes.ts gives %s' % (t, show_wire(p), show_wire(n))
-
-
-def default_type_names():
-  import usertypes
-  tsd = parse_default_values(gristtypes_text())
-  names = list(usertypes._type_defaults)
-  names += [k for k, _ in tsd if k not in names]
-  return names
 
 
 def search(ctx):
   d = schema_diff(ctx)
   if d:
     ctx.violation('schema-text-differs', d, {'check': 'schema_text'})
-  names = default_type_names()
-  extra = ['NoSuchType', ''] + [n + ':Table1' for n in names[:]] + ['NoSuchType:x', ':Text']
-  for t in names + extra:
-    ctx.count(('default-search', t), nontrivial=True, kind='search:default')
-    d = default_diff(t)
-    if d and t in names + ['NoSuchType', '']:
-      ctx.violation('default-differs', d, {'check': 'default', 'type': t})
-    elif d and not default_diff(pure_type(t)):
-      ctx.violation('default-differs', d, {'check': 'default', 'type': t})    # only the suffixed form differs
   import usertypes
-  tsd = parse_default_values(gristtypes_text())
-  if set(usertypes._type_defaults) != {k for k, _ in tsd}:
+  table, how = ts_wire_table()
+  ctx.bump('search:ts-defaults-read-by-' + how)
+  names = list(usertypes._type_defaults)
+  names += [k for k, _ in table if k not in names]
+  plain = names + ['NoSuchType', '']
+  suffixed = [n + ':Table1' for n in names] + ['NoSuchType:x', ':Text']
+  for t in plain + suffixed:
+    ctx.count(('default-search', t), nontrivial=True, kind='search:default')
+    d = default_diff(t, table)
+    if d and (t in plain or not default_diff(pure_type(t), table)):   # a suffixed form is reported only if it alone differs
+      ctx.violation('default-differs', d, {'check': 'default', 'type': t})
+  if set(usertypes._type_defaults) != {k for k, _ in table}:
     ctx.notes.append('type names listed on one side only (defaults still agree through the fallbacks): %s' %
-                     sorted(set(usertypes._type_defaults) ^ {k for k, _ in tsd}))
+                     sorted(set(usertypes._type_defaults) ^ {k for k, _ in table}))
   ctx.extra['exhaustive'] = True
   ctx.extra['exhaustive_space'] = ('every table of the current schema in both blocks of schema.ts (plus whole-text equality); '
                                    'every type name listed on either side, an unlisted one, and suffixed forms')
